@@ -34,6 +34,12 @@ def _data_dir():
     return d
 
 
+class RestartFailed(Exception):
+    def __init__(self, phase, exc):
+        Exception.__init__(self, "%s raised %r" % (phase, exc))
+        self.phase, self.exc = phase, exc
+
+
 class VClock:
     def __init__(self):
         self.now = 1000000.0
@@ -242,7 +248,10 @@ class Engine:
         """Stop the server and start it again from its saved state: Main.savedb (as Main.run's
         finally does, before any connection's shutdown ran), drop every connection, let `downtime`
         pass, then a new Main loads the data directory."""
-        self.main.savedb()
+        try:
+            self.main.savedb()
+        except Exception as e:
+            raise RestartFailed("savedb", e)
         qpath = os.path.join(self.data_dir, "workq.pickle")
         self.events.append({"t": "restart", "bytes": os.path.getsize(qpath) if os.path.exists(qpath) else -1,
                             "downtime": downtime, "now": self.clock.now + downtime})
@@ -252,7 +261,10 @@ class Engine:
         for _ in range(4):
             gevent.sleep(0)
         self.clock.now += downtime
-        self.main = qserve.Main(0, "127.0.0.1", self.data_dir, None)
+        try:
+            self.main = qserve.Main(0, "127.0.0.1", self.data_dir, None)
+        except Exception as e:
+            raise RestartFailed("loaddb", e)
         self.db = self.main.db
         self.generation += 1
         names = [c.name for c in old]
